@@ -214,7 +214,10 @@ ServerErrorResponse ==
                 /\ Log([op |-> "s_error"], [res |-> "Ok", mac |-> r.j, n |-> Len(r.mac)])
         ELSE LET code == CASE g.err = "BADSIG" -> BADSIG [] g.err = "BADKEY" -> BADKEY
                            [] g.err = "BADTRUNC" -> BADTRUNC [] OTHER -> FORMERR
-                 r == ServerErrUnsignedStep(g.req, resp, code)
+                 found == FromMessage(g.req) = "Found"
+                 r == ServerErrUnsignedStep(g.req, resp, code,
+                                            IF found THEN LastRec(g.req).time ELSE 0,
+                                            IF found THEN LastRec(g.req).fudge ELSE 0)
              IN /\ macs' = macs
                 /\ pre' = resp
                 /\ IF r.tsig
